@@ -320,8 +320,12 @@ def sevenz_of_size(total: int) -> bytes:
     raise RuntimeError("could not hit the archive size")
 
 
+LIMIT_7Z = 100 * 1024 * 1024        # "a 7z archive above 100 MB is refused": the number of the property (and of the README), not whatever the module constant says today
+
+
 def _judge_7z_size(delta: int):
-    from sharepoint2text.parsing.extractors.archive_extractor import MAX_7Z_FILE_SIZE, read_archive
+    from sharepoint2text.parsing.extractors.archive_extractor import read_archive
+    MAX_7Z_FILE_SIZE = LIMIT_7Z
     raw = sevenz_of_size(MAX_7Z_FILE_SIZE + delta)
     with Spy() as spy:
         got, val = _outcome(lambda: read_archive(io.BytesIO(raw), "case.7z"))
